@@ -201,8 +201,17 @@ theorem lexOf_append (ln : Nat) (a b : List PTok) (h : allT a) :
   | cons p a ih =>
     have ha : allT a := fun q hq => h q (List.mem_cons_of_mem _ hq)
     cases p with
-    | t s touch => simp [lexOf, ih ha]
+    | t s touch =>
+      have := ih ha
+      simp only [lexOf] at this
+      simp [lexOf, lexAux, this]
     | nl => exact absurd rfl (h .nl (List.mem_cons_self ..))
+
+theorem lexOf_cons_t (ln : Nat) (s : String) (b : Bool) (r : List PTok) :
+    lexOf ln (PTok.t s b :: r) = ⟨s, b, ln, ln⟩ :: lexOf ln r := by
+  simp [lexOf, lexAux]
+
+theorem lexOf_nil (ln : Nat) : lexOf ln [] = [] := by simp [lexOf, lexAux]
 
 theorem allT_append {a b : List PTok} (ha : allT a) (hb : allT b) : allT (a ++ b) := by
   intro p hp
@@ -262,31 +271,31 @@ theorem WF.allT {c : Bool} {e : Expr} (h : WF c e) : ∀ first, allT (printExpr 
     exact allT_append (allT_append (ihl first) (allT_single _ _)) (ihr false)
 
 theorem T_var (ln : Nat) (first : Bool) (x : String) : T ln first (.var x) = [⟨x, first, ln, ln⟩] := by
-  simp [T, printExpr, lexOf]
+  simp [T, printExpr, lexOf, lexAux]
 
 theorem T_int (ln : Nat) (first : Bool) (i : Int) : T ln first (.intLit i) = [⟨toString i, first, ln, ln⟩] := by
-  simp [T, printExpr, lexOf]
+  simp [T, printExpr, lexOf, lexAux]
 
 theorem T_paren (ln : Nat) (first : Bool) (e : Expr) (h : allT (printExpr true e)) :
     T ln first (.paren e) = ⟨"(", first, ln, ln⟩ :: (T ln true e ++ [⟨")", true, ln, ln⟩]) := by
-  simp [T, printExpr, lexOf, lexOf_append _ _ _ h, g]
+  simp [T, printExpr, lexOf_append _ _ _ h, lexOf_cons_t, lexOf_nil, g]
 
 theorem T_binop (ln : Nat) (first : Bool) (l r : Expr) (op : String) (h : allT (printExpr first l)) :
     T ln first (.binop l op r) = T ln first l ++ ⟨op, false, ln, ln⟩ :: T ln false r := by
-  simp [T, printExpr, lexOf, lexOf_append _ _ _ h, w]
+  simp [T, printExpr, lexOf_append _ _ _ h, lexOf_cons_t, lexOf_nil, w]
 
 theorem T_call (ln : Nat) (first : Bool) (f : Expr) (args : List Expr) (h : allT (printExpr first f))
     (ha : allT (printArgs true args)) :
     T ln first (.call f args) =
       T ln first f ++ ⟨"(", true, ln, ln⟩ :: (TA ln true args ++ [⟨")", true, ln, ln⟩]) := by
-  simp [T, TA, printExpr, lexOf, lexOf_append _ _ _ h, lexOf_append _ _ _ ha, g]
+  simp [T, TA, printExpr, lexOf_append _ _ _ h, lexOf_append _ _ _ ha, lexOf_cons_t, lexOf_nil, g]
 
-theorem TA_nil (ln : Nat) (first : Bool) : TA ln first [] = [] := by simp [TA, printArgs, lexOf]
+theorem TA_nil (ln : Nat) (first : Bool) : TA ln first [] = [] := by simp [TA, printArgs, lexOf, lexAux]
 theorem TA_one (ln : Nat) (first : Bool) (e : Expr) : TA ln first [e] = T ln first e := by
   simp [TA, T, printArgs]
 theorem TA_cons (ln : Nat) (first : Bool) (e e2 : Expr) (rest : List Expr) (h : allT (printExpr first e)) :
     TA ln first (e :: e2 :: rest) = T ln first e ++ ⟨",", true, ln, ln⟩ :: TA ln false (e2 :: rest) := by
-  simp [TA, T, printArgs, lexOf, lexOf_append _ _ _ h, g]
+  simp [TA, T, printArgs, lexOf_append _ _ _ h, lexOf_cons_t, lexOf_nil, g]
 
 /-- What the first printed token of an expression is not. -/
 def FirstOk (t : Tok) : Prop := t.text ≠ ")" ∧ t.text ≠ "=" ∧ t.text ≠ "+=" ∧ t.text ≠ "-="
